@@ -117,17 +117,20 @@ func run(rt *rapid.T, s *sim.Scenario, nblocks int) ([]string, bool) {
 	return classes, nontrivial
 }
 
+// every user can afford the candidate deposit; balances end around different multiples of 200 LEMO
+var richFunding = []int64{6000900, 5000400, 5000350, 5100000, 5000201, 5001000}
+
 func weights() sim.Weights {
 	w := sim.DefaultWeights
-	w.Vote, w.Candidate, w.Transfer, w.Contract, w.Box, w.GasPayer, w.Decoy = 8, 4, 8, 2, 3, 2, 1
+	w.Vote, w.Candidate, w.Transfer, w.Contract, w.Box, w.GasPayer, w.Decoy, w.Reward = 10, 6, 8, 2, 3, 2, 1, 2
 	return w
 }
 
 func TestC11Tally(t *testing.T) {
 	rapid.Check(t, func(rt *rapid.T) {
-		s := sim.NewScenario(rapid.IntRange(1, 3).Draw(rt, "deputies"), weights())
+		s := sim.NewScenarioWith(sim.Options{Deputies: rapid.IntRange(1, 3).Draw(rt, "deputies"), Weights: weights(), Funding: richFunding, FundDeputies: true})
 		defer s.Close()
-		classes, nontrivial := run(rt, s, rapid.IntRange(2, 6).Draw(rt, "nblocks"))
+		classes, nontrivial := run(rt, s, rapid.IntRange(2, 8).Draw(rt, "nblocks"))
 		sim.Case("tally", sim.HashOf(s.History), nontrivial, classes, func() interface{} { return s.History })
 	})
 }
@@ -136,9 +139,9 @@ func TestC11Tally(t *testing.T) {
 // platform at the end of a block) fall into the histories.
 func TestC11Terms(t *testing.T) {
 	rapid.Check(t, func(rt *rapid.T) {
-		s := sim.NewScenarioWith(sim.Options{Deputies: rapid.IntRange(1, 3).Draw(rt, "deputies"), Weights: weights(), TermDuration: 8, InterimDuration: 2, DeputyCount: 3})
+		s := sim.NewScenarioWith(sim.Options{Deputies: rapid.IntRange(1, 3).Draw(rt, "deputies"), Weights: weights(), TermDuration: 8, InterimDuration: 2, DeputyCount: 3, Funding: richFunding, FundDeputies: true})
 		defer s.Close()
-		classes, nontrivial := run(rt, s, rapid.IntRange(9, 14).Draw(rt, "nblocks"))
+		classes, nontrivial := run(rt, s, rapid.IntRange(10, 20).Draw(rt, "nblocks"))
 		sim.Case("terms", sim.HashOf(s.History), nontrivial, classes, func() interface{} { return s.History })
 	})
 }
